@@ -244,6 +244,161 @@ pub fn run_c13(sink: &mut Sink, thorough: bool, seed: u64) {
     }
 }
 
+// ---------------------------------------------------------------- C12 / C14: the depth budget between the items of one stream
+
+const DEPTH_KINDS: [&str; 11] = ["seq", "tuple", "map", "struct-map", "struct-seq", "enum-newtype", "enum-tuple", "enum-struct", "opt-newtype-vec", "int-map", "rotation"];
+
+/// One schema with a text for every number of layers: `item(d)` = the texts of the `d` outermost layers around `bottom`.
+/// `cum[d]` = containers the `d` outermost layers open; `bottom_levels` = containers of `bottom` itself; items of fewer
+/// than `min` layers do not fit the schema.
+struct Ladder { schema: Schema, se: String, pre: Vec<&'static str>, post: Vec<&'static str>, cum: Vec<usize>, bottom: &'static str, bottom_levels: usize, min: usize }
+impl Ladder {
+    fn new(schema: Schema, layers: &[(&'static str, &'static str, usize)], bottom: &'static str, bottom_levels: usize, min: usize) -> Ladder {
+        let mut cum = vec![0usize];
+        for l in layers { let c = cum[cum.len() - 1] + l.2; cum.push(c); }
+        Ladder { se: enc_schema(&schema), schema, pre: layers.iter().map(|l| l.0).collect(), post: layers.iter().map(|l| l.1).collect(), cum, bottom, bottom_levels, min }
+    }
+    fn levels(&self, d: usize) -> usize { self.cum[d.min(self.pre.len())] + self.bottom_levels }
+    /// the most layers whose item nests at most `limit` containers
+    fn fit(&self, limit: usize) -> usize { (0..=self.pre.len()).filter(|d| self.levels(*d) <= limit).max().unwrap_or(0).max(self.min) }
+    fn item_with(&self, d: usize, bottom: &str) -> String {
+        let d = d.min(self.pre.len()).max(self.min);
+        let mut t = String::new();
+        for p in &self.pre[..d] { t.push_str(p); }
+        t.push_str(bottom);
+        for p in self.post[..d].iter().rev() { t.push_str(p); }
+        t
+    }
+    fn item(&self, d: usize) -> String { self.item_with(d, self.bottom) }
+}
+
+fn ladder_kind(kind: usize, i: usize) -> usize { if kind == 10 { (i + 3) % 10 } else { kind } }
+
+/// `Option<layer<Option<layer<…Option<bool>…>>>>` of layer kind `kind` (10 = rotation), enough layers to nest 132 containers:
+/// an item of any smaller number of layers ends in `null` (`Option` takes nothing from the budget)
+fn opt_ladder(kind: usize) -> Ladder {
+    let mut layers: Vec<(&'static str, &'static str, usize)> = vec![]; let mut kinds: Vec<usize> = vec![]; let mut c = 0;
+    while c < 132 { let k = ladder_kind(kind, kinds.len()); let (_, a, b, l) = crate::typed::layer(k, Schema::Bool); layers.push((a, b, l)); kinds.push(k); c += l; }
+    let mut s = Schema::Option(Box::new(Schema::Bool));
+    for k in kinds.iter().rev() { s = Schema::Option(Box::new(crate::typed::layer(*k, s).0)); }
+    Ladder::new(s, &layers, "null", 0, 1)
+}
+
+/// `Vec<Vec<…Vec<bool>…>>` (kind 0), `Map<String, Map<…>>` (2), `Option<Newtype<Vec<…>>>` (8), `Map<u8, …>` (9), 131 layers:
+/// an item of fewer layers ends in the empty container `[]` / `{}`
+fn bare_ladder(kind: usize) -> Ladder {
+    let (_, a, b, l) = crate::typed::layer(kind, Schema::Bool);
+    let (s, _, _) = crate::typed::tower(kind, 131, &Schema::Bool, "true");
+    Ladder::new(s, &vec![(a, b, l); 130], if a.starts_with('[') { "[]" } else { "{}" }, 1, 0)
+}
+
+/// `n` typed layers (kind 10: `tower`'s rotation) around a `Value`: the nesting goes on inside the `Value`, on the same budget
+/// (`style` 0 arrays, 1 objects, 2 alternating)
+fn any_ladder(kind: usize, n: usize, style: usize) -> Ladder {
+    let (s, _, _) = crate::typed::tower(kind, n, &Schema::Any, "7");
+    let mut layers: Vec<(&'static str, &'static str, usize)> = vec![];
+    for i in 0..n { let (_, a, b, l) = crate::typed::layer(if kind == 10 { i % 10 } else { kind }, Schema::Bool); layers.push((a, b, l)); }
+    for j in 0..136 { layers.push(if style == 0 || (style == 2 && j % 2 == 0) { ("[", "]", 1) } else { ("{\"a\":", " }", 1) }); }
+    Ladder::new(s, &layers, "7", 0, n)
+}
+
+const DEPTH_SEPS: &[&str] = &["", " ", "\n"];
+
+fn depth_join(items: &[String], r: &mut Rng) -> Vec<u8> {
+    let mut out: Vec<u8> = vec![];
+    for (i, t) in items.iter().enumerate() { if i > 0 { out.extend_from_slice(r.pick(DEPTH_SEPS).as_bytes()); } out.extend_from_slice(t.as_bytes()); }
+    if r.chance(1, 3) { out.push(b'\n'); }
+    out
+}
+
+fn emit_depth(sink: &mut Sink, cfg: &str, l: &Ladder, items: &[String], r: &mut Rng, tag: &str) {
+    let b = depth_join(items, r);
+    emit_tstream(sink, cfg, &l.schema, &l.se, &b, items.len() + 2, r, tag);
+}
+
+/// the stream shapes of one ladder: `fit` = the deepest item within the limit (127 containers; 126 for the kinds that open
+/// two per layer, whatever the rotation reaches), `fit+1` the first beyond it
+fn depth_shapes(sink: &mut Sink, cfg: &str, l: &Ladder, r: &mut Rng, fam: &str, bads: &[usize], shapes: &[&str]) {
+    let f = l.fit(127);
+    for sh in shapes {
+        let items: Vec<String> = match *sh {
+            "fit3" => vec![l.item(f), l.item(f), l.item(f)],
+            "ramp" => vec![l.item(f - 1), l.item(f), l.item(f + 1), l.item(f)],
+            "shallow" => vec![l.item(l.min), l.item(f), l.item(l.min + 1), l.item(f)],
+            "over-first" => vec![l.item(f + 1), l.item(f)],
+            "over2" => vec![l.item(f + 2), l.item(f), l.item(f)],
+            "many" => { let mut v: Vec<String> = (0..40).map(|j| l.item(l.min + j % 3)).collect(); v.push(l.item(f)); v.push(l.item(f + 1)); v }
+            _ => continue,
+        };
+        emit_depth(sink, cfg, l, &items, r, &format!("depth:{}:{}", fam, sh));
+    }
+    // an item that fails deep inside for another reason (a mistyped / malformed leaf, a trailing comma), then one that fits
+    for bi in bads {
+        let (name, bottom): (&str, String) = match bi % 4 { 0 => ("tx", "tx".into()), 1 => ("minus", "-x".into()), 2 => ("comma", format!("{},", l.bottom)), _ => ("mistyped", "\"s\"".into()) };
+        let items = vec![l.item(f), l.item_with(f - 7, &bottom), l.item(f)];
+        emit_depth(sink, cfg, l, &items, r, &format!("depth:{}:bad-{}", fam, name));
+    }
+}
+
+/// C12 / C14: `remaining_depth` between the typed items of ONE stream. `check_recursion!` takes one from the budget when a
+/// container opens and gives it back when the container's visitor returns (7 sites: `deserialize_any` `[` `{`,
+/// `deserialize_seq`, `deserialize_map`, `deserialize_struct` `[` `{`, `deserialize_enum` `{`); one `Deserializer` reads every
+/// item of a `StreamDeserializer`, so a level that is not given back would make a LATER item fail with
+/// `RecursionLimitExceeded` (and a level given back twice would let a too deep item through). In the model (`historyT`)
+/// every item starts with the whole budget. Streams of several items of one schema, nesting to different depths around the
+/// limit (op `tstream`, tags `depth:<family>:<layer kind>:<shape>`):
+/// * `opt` — `Option`-interleaved towers of each of the ten layer kinds and their rotation (an item stops anywhere with `null`);
+/// * `bare` — `Vec<Vec<…>>`, nested maps, `Option<Newtype<Vec<…>>>` 131 high (an item stops with `[]` / `{}`);
+/// * `any` — one (thorough: two, ten) typed layers around a `Value`, which nests on; `anymid` — about 100 typed levels, then `Value`;
+/// * `exact` — towers of exactly 126 / 127 / 128 levels around `true`, three equal items;
+/// * `wide` — `Vec<tower>`: an item of 130 shallow siblings (each takes and returns its levels), then a deepest one.
+/// Shapes: `fit3` [127,127,127]; `ramp` [126,127,128 fails,127 never read]; `shallow` [1,127,2,127]; `over-first` [128,127];
+/// `over2` [129,127,127]; `many` 40 shallow items, 127, 128; `bad-*` [127, an item failing at depth 120 for another reason, 127].
+pub fn run_depth(sink: &mut Sink, thorough: bool, seed: u64) {
+    let mut r = Rng::new(seed ^ 0x7473_6470);
+    let cfg = cfg_tag();
+    let all: &[&str] = &["fit3", "ramp", "shallow", "over-first", "over2", "many"];
+    for kind in 0..=10usize {
+        let kn = DEPTH_KINDS[kind];
+        let l = opt_ladder(kind);
+        let bads: Vec<usize> = if thorough { vec![0, 1, 2, 3] } else { vec![kind + (seed as usize)] };
+        depth_shapes(sink, &cfg, &l, &mut r, &format!("opt:{}", kn), &bads, all);
+        if [0usize, 2, 8, 9].contains(&kind) {
+            let l = bare_ladder(kind);
+            depth_shapes(sink, &cfg, &l, &mut r, &format!("bare:{}", kn), &[2], if thorough { all } else { &all[..4] });
+        }
+        let anys: Vec<(usize, usize)> = if thorough { vec![(1, 0), (1, 1), (2, 2), (10, 2)] } else { vec![(1, (kind + seed as usize) % 3)] };
+        for (n, style) in anys {
+            let l = any_ladder(kind, n, style);
+            depth_shapes(sink, &cfg, &l, &mut r, &format!("any:{}", kn), &[bads[0] % 3], &all[..5]);
+        }
+        {
+            let n = if crate::typed::layer(kind, Schema::Bool).3 == 2 { 50 } else { 100 };
+            let l = any_ladder(kind, n, 2);
+            depth_shapes(sink, &cfg, &l, &mut r, &format!("anymid:{}", kn), &[], &["ramp"]);
+        }
+        // exact heights: every item is the same tower around `true`
+        let hs: Vec<usize> = (1..=130).filter(|n| { let lv = crate::typed::tower(kind, *n, &Schema::Bool, "true").2; lv >= if thorough { 124 } else { 126 } && lv <= 128 }).collect();
+        for n in hs {
+            let (s, text, levels) = crate::typed::tower(kind, n, &Schema::Bool, "true");
+            let b = depth_join(&vec![text; 3], &mut r);
+            emit_tstream(sink, &cfg, &s, &enc_schema(&s), &b, 5, &mut r, &format!("depth:exact:{}:same3-{}", kn, levels));
+        }
+        // wide, then deep: `Vec<tower>`
+        let e = opt_ladder(kind);
+        let ws = Schema::Seq(Box::new(e.schema.clone()));
+        let wse = enc_schema(&ws);
+        let wide = |m: usize| format!("[{}]", (0..130).map(|j| e.item(1 + (j + m) % 3)).collect::<Vec<_>>().join(","));
+        let f = e.fit(126);
+        let deep = |d: usize| format!("[{}, {} ]", e.item(1), e.item(d));
+        let streams: Vec<(&str, Vec<String>)> = vec![("wide-fit", vec![wide(0), deep(f)]), ("wide2-ramp", vec![wide(1), wide(2), deep(f), deep(f + 1), deep(f)])];
+        for (sh, items) in streams {
+            let b = depth_join(&items, &mut r);
+            emit_tstream(sink, &cfg, &ws, &wse, &b, items.len() + 2, &mut r, &format!("depth:wide:{}:{}", kn, sh));
+        }
+    }
+}
+
 pub fn emit_tspfx(sink: &mut Sink, cfg: &str, s: &Schema, se: &str, src: &str, b: &[u8], calls: usize, sizes: Vec<usize>, tag: &str) {
     if src == "str" && std::str::from_utf8(b).is_err() { return; }
     let hs: Vec<String> = (0..=b.len()).map(|k| history(s, src, &b[..k], calls, sizes.clone())).collect();
